@@ -706,7 +706,7 @@ func addTimeSubs(cfg *ResponseConfig, a *asset, period *m.Period, languages []st
 		st.SetTimescale(SUBS_TIME_TIMESCALE)
 
 		if vST.Duration != nil {
-			st.Duration = Ptr(*vST.Duration * 1000 / vST.GetTimescale())
+			st.Duration = Ptr(uint32(uint64(*vST.Duration) * 1000 / uint64(vST.GetTimescale())))
 		}
 		if vST.StartNumber != nil {
 			st.StartNumber = vST.StartNumber
